@@ -209,6 +209,8 @@ func genC10Loop(t *rapid.T) C05Case {
 	c.Native = rapid.Bool().Draw(t, "native")
 	c.N = rapid.IntRange(2, 3).Draw(t, "n")
 	c.MustKeep, c.RemoveOld = int64(time.Hour), int64(7*24*time.Hour)
+	c.OddNames = rapid.IntRange(0, 3).Draw(t, "odd_names") == 0
+	c.Dup = !c.Native && rapid.IntRange(0, 2).Draw(t, "dup") == 0
 	lc := LoopCase{Native: c.Native}
 	n := rapid.IntRange(3, 14).Draw(t, "nops")
 	for k := 0; k < n; k++ {
@@ -216,7 +218,11 @@ func genC10Loop(t *rapid.T) C05Case {
 		switch op.Kind {
 		case "app":
 			for j := 0; j < rapid.IntRange(1, 2).Draw(t, "nch"); j++ {
-				op.Changes = append(op.Changes, genSChange(t, &lc, 3))
+				ch := genSChange(t, &lc, 3)
+				if c.Dup && rapid.IntRange(0, 2).Draw(t, "dupdbi") == 0 {
+					ch.DBI = 2
+				}
+				op.Changes = append(op.Changes, ch)
 			}
 		case "step":
 			op.Steps = rapid.IntRange(1, 30).Draw(t, "steps")
@@ -231,7 +237,7 @@ func genC10Loop(t *rapid.T) C05Case {
 
 func TestC10Loop(t *testing.T) {
 	vcore.Run(t, vcore.Config{Property: "C10", Inflight: true,
-		Rule: "2-3 real sync loops under the scheduler with interleaved application commits, then a write-free phase of 2N+2 rounds (two loop iterations per instance and round): every instance uploads at most twice more (one upload in flight + one pending), no upload at all from the third round on, uploads of an instance <= its recorded application commits (instances start empty), every upload's image transaction (snapshot meta) is preceded by an application commit newer than the previous upload's image, identical content at the end; storage_force_snapshot_interval off / 1 h (same clauses) / 15-60 ms (an upload is also justified when the interval has passed since the instance's previous snapshot, by the snapshots' own timestamps; the counting clauses are off); non-trivial = >=2 instances wrote and data was exchanged"},
+		Rule: "2-3 real sync loops under the scheduler (a quarter with configured instance names that sanitising changes, a third of the shadow-mode cases with a duplicate-keys DBI under the dupsort hack) with interleaved application commits, then a write-free phase of 2N+2 rounds (two loop iterations per instance and round): every instance uploads at most twice more (one upload in flight + one pending), no upload at all from the third round on, uploads of an instance <= its recorded application commits (instances start empty), every upload's image transaction (snapshot meta) is preceded by an application commit newer than the previous upload's image, identical content at the end; storage_force_snapshot_interval off / 1 h (same clauses) / 15-60 ms (an upload is also justified when the interval has passed since the instance's previous snapshot, by the snapshots' own timestamps; the counting clauses are off); non-trivial = >=2 instances wrote and data was exchanged"},
 		genC10Loop, checkC10Loop)
 }
 
